@@ -81,7 +81,9 @@ ensures
                         head=INV % dict(ctor="Node::Chance(*chance)", kids="chance.outcomes", extra=""),
                         body_start=START,
                         body_end="""proof {
-    lemma_vqsum_push(qb, (next, fmul(*prob, reach)), c);
+    assert(search_queue@ =~= qb.push(search_queue@.last()));
+    assert(search_queue@.last().0 == next && rv(search_queue@.last().1) == rv(*prob) * rv(reach));
+    lemma_vqsum_push(qb, search_queue@.last(), c);
     lemma_dist(rv(reach), vsum(*node, c, k), rv(*prob), val(*next, c));
 }"""),
                 2: dict(kind="for", binder="it", before=BEFORE,
@@ -91,7 +93,9 @@ ensures
     let w = rv(*prob); let r = rv(reach); let e = val(*next, c);
     lemma_dist(r, vsum(*node, c, k), w, e);
     if w > 0real {
-        lemma_vqsum_push(qb, (next, fmul(*prob, reach)), c);
+        assert(search_queue@ =~= qb.push(search_queue@.last()));
+        assert(search_queue@.last().0 == next && rv(search_queue@.last().1) == w * r);
+        lemma_vqsum_push(qb, search_queue@.last(), c);
     } else {
         assert((w * r) * e == 0real) by(nonlinear_arith) requires w == 0real;
         assert(w * e == 0real) by(nonlinear_arith) requires w == 0real;
